@@ -50,6 +50,7 @@ type inliner struct {
 	nThreaded int
 	into      map[*ssa.Function][]string
 	callers   map[*ssa.Function][]inlinedSite // helper -> call sites that were replaced by its body
+	referenced map[*ssa.Function]bool
 }
 
 type inlinedSite struct {
@@ -227,7 +228,12 @@ func (in *inliner) process(fn *ssa.Function) {
 				continue
 			}
 			g := c.Call.StaticCallee()
-			if g == nil || g == fn || !in.eligibleCallee(g) {
+			if mc, isClosure := c.Call.Value.(*ssa.MakeClosure); isClosure {
+				// a local closure that is called directly (`flush := func() {...}; flush()`)
+				if g == nil || g.Parent() != fn || mc.Parent() != fn || len(g.Blocks) == 0 || g.Recover != nil || in.recursive[g] {
+					continue
+				}
+			} else if g == nil || g == fn || !in.eligibleCallee(g) {
 				continue
 			}
 			if in.state[g] == 1 {
@@ -241,7 +247,8 @@ func (in *inliner) process(fn *ssa.Function) {
 	changed := false
 	if !isGeneratedFn(in.p, fn) {
 		for _, s := range sites {
-			if in.recursive[s.g] || !in.eligibleCallee(s.g) || !bodyInlinable(s.g) {
+			_, isClosure := s.call.Call.Value.(*ssa.MakeClosure)
+			if in.recursive[s.g] || (!isClosure && !in.eligibleCallee(s.g)) || !bodyInlinable(s.g) {
 				continue
 			}
 			if nInstrs(fn)+nInstrs(s.g) > inlineMaxCaller {
@@ -414,6 +421,11 @@ func (in *inliner) splice(fn *ssa.Function, call *ssa.Call, g *ssa.Function) {
 	vmap := map[ssa.Value]ssa.Value{}
 	for i, prm := range g.Params {
 		vmap[prm] = call.Call.Args[i]
+	}
+	if mc, ok := call.Call.Value.(*ssa.MakeClosure); ok {
+		for i, fv := range g.FreeVars {
+			vmap[fv] = mc.Bindings[i]
+		}
 	}
 	bmap := map[*ssa.BasicBlock]*ssa.BasicBlock{}
 	var nbs []*ssa.BasicBlock
@@ -1241,6 +1253,48 @@ func (in *inliner) thread(fn *ssa.Function, C *ssa.BasicBlock) bool {
 			nblocks = append(nblocks, b)
 		}
 		fn.Blocks = nblocks
+		// a landing block followed by a block that only it reaches is one straight line: merge them, so that a second
+		// test on another result of the same helper (`v, ok, err := helper()`: err first, then ok) can be threaded too
+		for side := 0; side < 2; side++ {
+			L := land[side]
+			if L == nil {
+				continue
+			}
+			for len(L.Succs) == 1 {
+				S := L.Succs[0]
+				if S == L || S == fn.Blocks[0] || len(S.Preds) != 1 || S.Preds[0] != L || S == fn.Recover {
+					break
+				}
+				if _, isPhi := S.Instrs[0].(*ssa.Phi); isPhi {
+					break
+				}
+				L.Instrs = L.Instrs[:len(L.Instrs)-1] // drop the jump
+				for _, ins := range S.Instrs {
+					setBlock(ins, L)
+					L.Instrs = append(L.Instrs, ins)
+				}
+				L.Succs = S.Succs
+				for _, ss := range S.Succs {
+					for i, pr := range ss.Preds {
+						if pr == S {
+							ss.Preds[i] = L
+						}
+					}
+				}
+				if f := in.facts[S]; f != nil {
+					if in.facts[L] == nil {
+						in.facts[L] = map[ssa.Value]string{}
+					}
+					for k, v := range f {
+						in.facts[L][k] = v
+					}
+				}
+				removeBlock(fn, S)
+			}
+			if len(L.Preds) > 1 {
+				in.conts[L] = true
+			}
+		}
 		invalidateDom(fn)
 		return true
 	}
@@ -1482,4 +1536,63 @@ func (p *Program) OriginFn(ins ssa.Instruction) *ssa.Function {
 		}
 	}
 	return ins.Parent()
+}
+
+// Absorbed reports whether fn is a helper that the normal form has inlined at every place it is used: nothing refers
+// to it any more (no remaining call, no function value), so what it does is attributed to the functions it was inlined into.
+func (p *Program) Absorbed(fn *ssa.Function) bool {
+	if p.inl == nil || len(p.inl.callers[fn]) == 0 {
+		return false
+	}
+	if p.inl.referenced == nil {
+		ref := map[*ssa.Function]bool{}
+		var buf [16]*ssa.Value
+		for f := range p.AllFuncs {
+			if !inTeleport(f) || f.Synthetic != "" {
+				continue // (method wrappers and thunks are not uses)
+			}
+			for _, b := range f.Blocks {
+				for _, ins := range b.Instrs {
+					if p.IsClone(ins) {
+						continue
+					}
+					for _, op := range ins.Operands(buf[:0]) {
+						if g, ok := (*op).(*ssa.Function); ok {
+							ref[g] = true
+							ref[p.unwrap(g)] = true
+						}
+					}
+				}
+			}
+		}
+		p.inl.referenced = ref
+	}
+	return !p.inl.referenced[fn]
+}
+
+// Owners names the functions to which the code of fn is attributed: fn itself (its outermost enclosing function), or,
+// for an absorbed helper, the owners of the functions it was inlined into.
+func (p *Program) Owners(fn *ssa.Function) []string {
+	set := map[string]bool{}
+	var walk func(f *ssa.Function, d int)
+	walk = func(f *ssa.Function, d int) {
+		f = rootFn(f)
+		if d < 6 && p.Absorbed(f) {
+			for _, s := range p.inl.callers[f] {
+				if s.Caller.Synthetic != "" {
+					continue // method wrapper: not a use by itself (a use of the wrapper shows up as a reference)
+				}
+				walk(s.Caller, d+1)
+			}
+			return
+		}
+		set[funcName(f)] = true
+	}
+	walk(fn, 0)
+	var out []string
+	for n := range set {
+		out = append(out, n)
+	}
+	sort.Strings(out)
+	return out
 }
